@@ -5,6 +5,7 @@ writer for static tables (format of the shipped examples) -> read_elast_data ret
 canonical keys; `cij fill` output re-parsed equals the own symmetric completion of the input.
 """
 import os
+import re
 import shutil
 import tempfile
 import warnings
@@ -22,7 +23,7 @@ SHARDS = {"quick": 8, "thorough": 16}
 RULE = ("(phonon) data sets with 1-12 volumes, 1-10 q-points, 3-60 modes, values of either sign up to 1e5, weights >= 0, any nm/na; "
         "(static) tables with any component subset/order, key spellings c11 / C11 / c_11 / c1123 (4-digit), 1-10 rows, optional "
         "lattice block, trailing blanks/tabs, rows in decreasing / increasing / shuffled volume order, numbers with or without a decimal "
-        "point; (command) nine systems, sufficient subsets, tables in floats or in whole numbers obeying the symmetry, re-parse of stdout; non-trivial = "
+        "point; (command) nine systems, sufficient subsets, tables in floats or in whole numbers obeying the symmetry, or complete / sufficient tables obeying it only to 1e-3 / 5e-3 GPa (then compared with read_elast_data + apply_symetry_on_elast_data at the precision printed), re-parse of stdout; non-trivial = "
         "np != 3*na or negative values or > 1 q-point; table with upper-case/prefixed/4-digit keys and a lattice block; any command case; "
         "distinct by the drawn case")
 ASSUMPTIONS = [
@@ -239,7 +240,9 @@ def command_cases(draw):
     return {"system": system, "order": list(draw(st.permutations(list(range(21))))), "extra": draw(st.integers(0, 3)),
             "nrows": draw(st.integers(1, 8)), "seed": draw(st.integers(0, 2 ** 32 - 1)), "lattice": draw(st.booleans()),
             "upper": draw(st.booleans()), "trail": draw(st.sampled_from(["", " ", "\t"])),
-            "numbers": draw(st.sampled_from(["float", "float", "whole"]))}
+            "numbers": draw(st.sampled_from(["float", "float", "whole"])),
+            # entries that obey the symmetry only to a few 1e-3 GPa (accepted: the residual tolerance is 0.1)
+            "perturb": draw(st.sampled_from([0.0, 0.0, 1e-3, 5e-3]))}
 
 
 def command_oracle(ctx, c):
@@ -263,12 +266,19 @@ def command_oracle(ctx, c):
         w = w + (np.abs(w) < 1.0) * 5.0
     else:
         keys = subset_from_order(system, c["order"], c["extra"])
+    if c.get("perturb") and not whole and system != "triclinic" and c["seed"] % 2 == 0:
+        # a complete table: every non-vanishing component is listed (nothing to add, nothing to drop)
+        from ..reflaue import nonzero_pattern
+        nzp = set(nonzero_pattern(system))
+        keys = [KEYS21[i] for i in c["order"] if KEYS21[i] in nzp]
     idx = [KEYS21.index(k) for k in keys]
     vols = np.sort(rng.uniform(50, 3000, c["nrows"]))[::-1]
     if whole:
         vols = np.sort(rng.choice(np.arange(50, 3000), c["nrows"], replace=False).astype(float))[::-1]
     lat = rng.uniform(0.5, 12, (c["nrows"], 3))
-    tab = w[:, idx]          # exactly consistent (rounding redundant columns separately would contradict the relations by ~5e-4,
+    perturb = 0.0 if whole else c.get("perturb", 0.0)
+    tab = w[:, idx] + (rng.uniform(-perturb, perturb, (c["nrows"], len(idx))) if perturb else 0.0)
+    tab_unused = w[:, idx]          # exactly consistent (rounding redundant columns separately would contradict the relations by ~5e-4,
                              # and then the code's least-squares compromise and the reference projection legitimately differ)
     cc = {"keys": [list(k) for k in keys], "style": "C" if c["upper"] else "c", "lattice": c["lattice"], "trail": c["trail"],
           "blank_end": False, "header_word": "V", "numbers": "whole" if whole else "float"}
@@ -280,6 +290,19 @@ def command_oracle(ctx, c):
         with warnings.catch_warnings():
             warnings.simplefilter("ignore")
             res = CliRunner().invoke(cij.cli.fill.main, ["-s", system, path])
+            api = None
+            if perturb:
+                # "the symmetry-filled parse of its input" through the package's own API path
+                from cij.io.traditional.elast_dat import apply_symetry_on_elast_data
+                try:
+                    api = read_elast_data(path)
+                    apply_symetry_on_elast_data(api, {"system": system})
+                except Exception:
+                    api = False
+        if perturb and api is False:
+            if res.exit_code == 0:
+                raise PropertyViolation("C17/command/accepted-what-the-api-refuses", "cij fill accepts a table apply_symetry_on_elast_data refuses", c)
+            return len(keys)
         if res.exit_code != 0:
             raise PropertyViolation("C17/command/system=%s/failed" % system, "cij fill failed on a sufficient consistent table: %r" % (res.exception,), c)
         out = res.output
@@ -301,6 +324,26 @@ def command_oracle(ctx, c):
         raise PropertyViolation("C17/command/lattice", "lattice parameters invented", c)
     if parsed.vref != 777.5 or parsed.nv != c["nrows"] or parsed.cellmass != 123.25:
         raise PropertyViolation("C17/command/header", "header of the output parses differently", c)
+    if perturb:
+        # printed precision read off the output itself: half a unit of the last printed decimal of each number
+        toks = [l.split() for l in out.splitlines()[3: 3 + c["nrows"]]]
+        heads = out.splitlines()[2].split()
+        for i, v in enumerate(parsed.volumes):
+            got = {tuple(k.voigt): x for k, x in v.static_elastic_modulus.items()}
+            want = {tuple(k.voigt): x for k, x in api.volumes[i].static_elastic_modulus.items()}
+            if sorted(got) != sorted(want):
+                raise PropertyViolation("C17/command/perturbed/keys", "row %d: components %r, symmetry-filled parse of the input has %r" % (i, sorted(got), sorted(want)), c)
+            prec = {}
+            if len(toks) == c["nrows"] and len(toks[i]) == len(heads):
+                for h, t in zip(heads, toks[i]):
+                    m = re.fullmatch(r"[cC]_?(\d)(\d)", h)
+                    if m and "." in t and "e" not in t.lower():
+                        prec[tuple(sorted((int(m.group(1)), int(m.group(2)))))] = 0.51 * 10.0 ** (-len(t.split(".")[1]))
+            for k in want:
+                if abs(got[k] - want[k]) > prec.get(tuple(sorted(k)), 5e-6 * max(1.0, abs(want[k]))) + 1e-9:
+                    raise PropertyViolation("C17/command/perturbed/value", "row %d c%d%d: output %r, symmetry-filled parse of the input %r" % (
+                        i, k[0], k[1], got[k], want[k]), c)
+        return len(keys)
     wref, d2 = complete(system, keys, tab)
     for i, v in enumerate(parsed.volumes):
         if abs(v.volume - vols[i]) > 5e-6 * vols[i]:
@@ -322,7 +365,8 @@ def command_oracle(ctx, c):
 def sub_command(ctx):
     def body(c):
         nk = command_oracle(ctx, c)
-        ctx.case(c, True, classes=["command", c["system"], "lattice" if c["lattice"] else "no-lattice", "numbers-" + c.get("numbers", "float")])
+        ctx.case(c, True, classes=["command", c["system"], "lattice" if c["lattice"] else "no-lattice", "numbers-" + c.get("numbers", "float"),
+                                 "perturbed-%g" % c.get("perturb", 0.0)])
 
     ctx.run_given(body, command_cases(), max_examples=ctx.n(9 * 40, 9 * 2000))
 
